@@ -82,6 +82,57 @@ def lemmas():
            '%d sites' % len(sites), False)
 
 
+def unknowns_small_documents(seed):
+    """completeness and order of the list are outside the deductive part:
+    bounded stand-in on all documents of <= 4 pieces over a small catalogue
+    (undeclared macros in text, in maths, in a comment, inside the argument
+    of a declared macro, an undeclared environment, a declared macro),
+    compared with the sentence of the property computed independently"""
+    import itertools
+    from pyvc import replay as _r
+    t2t = _r.real_module('yalafi.tex2txt')
+    # piece -> names it uses in text mode, in order
+    pieces = [
+        ('\\ua ', ['\\ua']), ('\\ub{x} ', ['\\ub']),
+        ('$\\ua+\\uc$ ', []), ('%\\ud\n', []),
+        ('\\section{\\ua \\ue} ', ['\\ua', '\\ue']),
+        ('\\begin{uenv}t\\end{uenv} ', ['uenv']),
+        ('\\TeX{} ', []), ('word ', []),
+        ('\\footnote{\\uf} ', ['\\uf']),
+    ]
+    n, fails = 0, []
+    for ln in range(0, 5):
+        for combo in itertools.product(range(len(pieces)), repeat=ln):
+            if ln == 4 and (sum(combo) + seed) % 3:
+                continue        # a third of the longest documents
+            src = ''.join(pieces[i][0] for i in combo)
+            want = []
+            for i in combo:
+                for nm in pieces[i][1]:
+                    if nm not in want:
+                        want.append(nm)
+            n += 1
+            try:
+                plain, _ = t2t.tex2txt(src, t2t.Options(unkn=True))
+            except Exception as e:      # noqa
+                fails.append({'input': src, 'why': 'exception %r' % (e,)})
+                continue
+            got = [x for x in plain.split('\n') if x]
+            if got != want:
+                fails.append({'input': src, 'listed': got,
+                              'expected': want})
+            if len(fails) >= 3:
+                break
+        if len(fails) >= 3:
+            break
+    return {'name': 'unknowns-list-on-small-documents', 'bounded': True,
+            'bound': 'all documents of <= 3 pieces and a third of those with '
+                     '4 pieces over a catalogue of 9 pieces',
+            'evaluations': n, 'failures': fails}
+
+
+QUICK_BOUNDED = [unknowns_small_documents]
+
 TRUSTED = cm.TRUSTED_CORE
 ASSUMPTIONS = cm.ASSUME_CORE + [
     'NOT decided: completeness (that every textual use of an undeclared name reaches expand_macro / begin_environment), order of '
